@@ -270,12 +270,43 @@ theorem readRev_le {rev : Int} {committed : Nat} (h0 : 0 ≤ rev) (hle : rev ≤
   · simp [hz]
   · simp only [beq_iff_eq, hz, if_false]; omega
 
+/-! ### the guard of the partition-listing branch (/repo e617587) -/
+
+/-- the hypothesis of the list theorems on the magic revision: AT the magic revision the request carries a limit or
+`count_only` (then it is an ordinary read) -/
+theorem magicGuard_false_of {r : RangeReq}
+    (h : r.revision = getPartitionMagic → r.limit ≠ 0 ∨ r.countOnly = true) : magicGuard r = false := by
+  unfold magicGuard
+  by_cases hr : r.revision = getPartitionMagic
+  · rcases h hr with hl | hc
+    · have : (r.limit == 0) = false := by simpa using hl
+      simp [this]
+    · simp [hc]
+  · have : (r.revision == getPartitionMagic) = false := by simpa using hr
+    simp [this]
+
+theorem magicGuard_false_of_count {r : RangeReq} (hco : r.countOnly = true) : magicGuard r = false :=
+  magicGuard_false_of (fun _ => .inr hco)
+
+theorem magicGuard_false_of_limit {r : RangeReq} (hl : r.limit ≠ 0) : magicGuard r = false :=
+  magicGuard_false_of (fun _ => .inl hl)
+
+theorem magicGuard_iff (r : RangeReq) :
+    magicGuard r = true ↔ r.revision = getPartitionMagic ∧ r.limit = 0 ∧ r.countOnly = false := by
+  simp [magicGuard, and_assoc]
+
+/-- the new guard implies the old one: whatever is still a partition listing was one before -/
+theorem magicGuardOld_of_magicGuard {r : RangeReq} (h : magicGuard r = true) : magicGuardOld r = true := by
+  have := (magicGuard_iff r).mp h
+  simp [magicGuardOld, this.1]
+
 /-- the range read against the reference, for ARBITRARY bounds (any byte strings: keys over the alphabet, continue
 keys `K ++ [0]`, bounds with any other byte at or below the split byte) -/
 theorem range_list_sound_bounds (c : Cfg) (s : BState) (recs : List Rec) (hst : StoreAbs c s recs) (r : RangeReq)
     (hp : PlainRange r) (hco : r.countOnly = false) (hk : r.key ≠ []) (hlt : cmp r.key r.rangeEnd = .lt)
     (hr0 : 0 ≤ r.revision)
-    (hrc : r.revision ≤ s.committed) (hmagic : r.revision ≠ getPartitionMagic) (hcb : s.committed < 2 ^ 64) :
+    (hrc : r.revision ≤ s.committed)
+    (hmagic : r.revision = getPartitionMagic → r.limit ≠ 0 ∨ r.countOnly = true) (hcb : s.committed < 2 ^ 64) :
     ∃ a b, shimRange c s r = .ok a ∧ refRangeH (histOf recs s.committed) r = .ok b ∧
       a.hdr = b.hdr ∧ a.kvs = b.kvs ∧ a.more = b.more ∧ a.count ≤ b.count ∧ (a.more = false → a.count = b.count) := by
   have hee := isEmpty_false_of_ne (ne_nil_of_lt hlt)
@@ -308,7 +339,7 @@ theorem range_list_sound_bounds (c : Cfg) (s : BState) (recs : List Rec) (hst : 
     simp only
     omega
   generalize scanRecs R (recs.filter (inRange r.key r.rangeEnd)) = full at hkvs hmore href
-  have hm : (r.revision == getPartitionMagic) = false := by simpa using hmagic
+  have hm : magicGuard r = false := magicGuard_false_of hmagic
   have hshim : shimRange c s r =
       .ok ⟨res.hdr, res.kvs, res.kvs.length + (if res.more then 1 else 0), res.more⟩ := by
     simp [shimRange, hee, hm, hco, hres, liftScan]
@@ -347,22 +378,23 @@ theorem range_list_sound_bounds (c : Cfg) (s : BState) (recs : List Rec) (hst : 
 theorem range_list_sound (c : Cfg) (s : BState) (recs : List Rec) (hst : StoreAbs c s recs) (r : RangeReq)
     (hp : PlainRange r) (hco : r.countOnly = false) (hk : r.key ≠ []) (hka : Alphabet r.key)
     (hea : Alphabet r.rangeEnd) (hlt : cmp r.key r.rangeEnd = .lt) (hr0 : 0 ≤ r.revision)
-    (hrc : r.revision ≤ s.committed) (hmagic : r.revision ≠ getPartitionMagic) (hcb : s.committed < 2 ^ 64) :
+    (hrc : r.revision ≤ s.committed)
+    (hmagic : r.revision = getPartitionMagic → r.limit ≠ 0 ∨ r.countOnly = true) (hcb : s.committed < 2 ^ 64) :
     ∃ a b, shimRange c s r = .ok a ∧ refRangeH (histOf recs s.committed) r = .ok b ∧
       a.hdr = b.hdr ∧ a.kvs = b.kvs ∧ a.more = b.more ∧ a.count ≤ b.count ∧ (a.more = false → a.count = b.count) :=
   range_list_sound_bounds c s recs hst r hp hco hk hlt hr0 hrc hmagic hcb
 
 /-- `count_only` at an explicit revision (/repo 5f2847c): the size of the range read at THAT revision; the whole
-response equals etcd's -/
+response equals etcd's — at EVERY revision `0 < R ≤ committed`, the magic 1888 included (/repo e617587) -/
 theorem range_count_rev_sound (c : Cfg) (s : BState) (recs : List Rec) (hst : StoreAbs c s recs) (r : RangeReq)
     (hp : PlainRange r) (hco : r.countOnly = true) (hk : r.key ≠ []) (hlt : cmp r.key r.rangeEnd = .lt)
-    (hr0 : 0 < r.revision) (hrc : r.revision ≤ s.committed) (hmagic : r.revision ≠ getPartitionMagic)
+    (hr0 : 0 < r.revision) (hrc : r.revision ≤ s.committed)
     (hcb : s.committed < 2 ^ 64) :
     ∃ a, shimRange c s r = .ok a ∧ refRangeH (histOf recs s.committed) r = .ok a := by
   obtain ⟨hp1, hp2, hp3, hp4, hp5, hp6⟩ := hp
   have hee := isEmpty_false_of_ne (ne_nil_of_lt hlt)
   have hrl : r.revision < 2 ^ 64 := by omega
-  have hm : (r.revision == getPartitionMagic) = false := by simpa using hmagic
+  have hm : magicGuard r = false := magicGuard_false_of_count hco
   have h0 := end_ne_zero_of_lt hk hlt
   have hlist := doList_bounds_unlimited c hst.single s hst.store hst.keys hlt (toU64 r.revision)
   have href := refRangeH_ok recs s.committed r hk (by omega) hrc hrl
@@ -403,7 +435,7 @@ theorem range_count_sound_bounds (c : Cfg) (s : BState) (recs : List Rec) (hst :
   have hlen : ((mvccAt recs s.committed).range r.key r.rangeEnd).length =
       (scanRecs s.committed (recs.filter (inRange r.key r.rangeEnd))).length := by rw [← hfull, List.length_map]
   have hft : ∀ l : List KVFull, l.filter (fun _ => true) = l := fun l => List.filter_eq_self.mpr (by simp)
-  have hm : (r.revision == getPartitionMagic) = false := by rw [hr0]; decide
+  have hm : magicGuard r = false := magicGuard_false_of_count hco
   refine ⟨⟨s.committed, [], (scanRecs s.committed (recs.filter (inRange r.key r.rangeEnd))).length, false⟩, ?_, ?_⟩
   · have hr : ¬ r.revision > 0 := by omega
     simp only [shimRange, hee, hm, hco, hcnt, liftScan, Bool.false_eq_true, if_false, if_true, hr]
